@@ -222,3 +222,67 @@ func Harness_C16_scanLog() {
 	}
 	vReach("scanned")
 }
+
+// c16GrowingLog publishes tree heads of growing size: every GetSTH call after the first reports
+// sizes[k] for the k-th call (the last one forever).
+type c16GrowingLog struct {
+	c16ParLog
+	sizes []int64
+	calls int
+}
+
+func (l *c16GrowingLog) GetSTH(context.Context) (*ct.SignedTreeHead, error) {
+	vSched("get-sth")
+	l.mu.Lock()
+	defer l.mu.Unlock()
+	k := l.calls
+	if k >= len(l.sizes) {
+		k = len(l.sizes) - 1
+	}
+	l.calls++
+	l.size = l.sizes[k]
+	return &ct.SignedTreeHead{TreeSize: uint64(l.sizes[k])}, nil
+}
+
+// Harness_C16_continuous: continuous mode. The log first publishes 2 entries, then (after an
+// unchanged head) 4; the fetcher carries on with the newly published entries without gaps or
+// repeats, and stops when Stop is called after index 3 was delivered: every index of [0, 4)
+// reaches the callback exactly once, nothing else does, Run returns.
+//
+//verif:opt sched=1 race=1 preempt=1 thorough.preempt=2 maxpaths=400000 thorough.maxpaths=4000000 decisions=8000 steps=40000000 reach=stopped
+func Harness_C16_continuous() {
+	const n = 4
+	log := &c16GrowingLog{sizes: []int64{2, 2, 4, 4}}
+	log.base = 0
+	for i := 0; i < n; i++ {
+		log.short = append(log.short, (i+vChoice("short", 2))%2)
+		log.fail = append(log.fail, false)
+	}
+	sink := &c16Sink{count: make([]int, n)}
+	all := make(chan struct{})
+	total := 0
+	f := NewFetcher(log, &FetcherOptions{BatchSize: 2, ParallelFetch: 1 + vChoice("fetchers", 2), Continuous: true})
+	done := make(chan error, 1)
+	go func() {
+		done <- f.Run(context.Background(), func(b EntryBatch) {
+			sink.deliver(b)
+			sink.mu.Lock()
+			total += len(b.Entries)
+			if total == n {
+				close(all)
+			}
+			sink.mu.Unlock()
+		})
+	}()
+	<-all
+	f.Stop()
+	err := <-done
+	vAssert(err == nil, "Run returns after Stop")
+	sink.mu.Lock()
+	defer sink.mu.Unlock()
+	vAssert(!sink.bad, "only published indices, each with its bytes")
+	for k := 0; k < n; k++ {
+		vAssert(sink.count[k] == 1, "continuous mode carries on with newly published entries without gaps or repeats")
+	}
+	vReach("stopped")
+}
